@@ -166,17 +166,21 @@ def _skip_name(w, p):
 
 
 def layout(w):
-    """offsets of the fields of the last RR of the message (the TSIG RR of a signed one)"""
-    qd, an, ns, ar = struct.unpack("!HHHH", w[4:12])
+    """offsets of the fields of the TSIG RR (the last RR of type TSIG; the RRs are walked to the end of the
+    octets, not by the header counts, which a fault may already have altered)"""
+    (qd,) = struct.unpack("!H", w[4:6])
     p = 12
     for _ in range(qd):
         p = _skip_name(w, p) + 4
-    start = p
-    for _ in range(an + ns + ar):
-        start = p
+    start = None
+    while p < len(w):
         q = _skip_name(w, p)
-        (rdlen,) = struct.unpack("!H", w[q + 8:q + 10])
+        rtype, _cls, _ttl, rdlen = struct.unpack("!HHIH", w[q:q + 10])
+        if rtype == 250:
+            start = p
         p = q + 10 + rdlen
+    if start is None:
+        raise ValueError("no TSIG RR")
     q = _skip_name(w, start)
     a = q + 10
     ae = _skip_name(w, a)
@@ -236,7 +240,7 @@ def tamper(w, region, signed, minbits):
         if L["otherlen"] > 0:
             b[L["other"]] ^= 0x01
         else:
-            b += b"\x01"
+            b[L["other"]:L["other"]] = b"\x01"
             _set16(b, L["olen"], 1)
             _set16(b, L["rdlen"], _get16(b, L["rdlen"]) + 1)
     elif region == "tsig.owner":
@@ -279,8 +283,9 @@ def move_tsig(w):
 
 def strip_tsig(w):
     L = layout(w)
-    b = bytearray(w[:L["start"]])
-    _set16(b, 10, _get16(b, 10) - 1)
+    end = L["other"] + L["otherlen"]
+    b = bytearray(w[:L["start"]] + w[end:])
+    _set16(b, 10, max(0, _get16(b, 10) - 1))
     return bytes(b)
 
 
